@@ -35,13 +35,16 @@ structure Writer where
   out : Bytes := []
   writes : Nat := 0
   failAt : Option Nat := none
+  failed : Bool := false      -- ghost: some Write call has returned an error
   deriving Repr, Inhabited
 
-def Writer.write (w : Writer) (p : Bytes) : Except Err Writer :=
+/-- One `w.Write(p)` call: the new writer and whether the call succeeded. -/
+def Writer.write (w : Writer) (p : Bytes) : Writer × Bool :=
   let n := w.writes + 1
   match w.failAt with
-  | some k => if k ≤ n then .error .writer else .ok { w with out := w.out ++ p, writes := n }
-  | none => .ok { w with out := w.out ++ p, writes := n }
+  | some k => if k ≤ n then ({ w with writes := n, failed := true }, false)
+              else ({ w with out := w.out ++ p, writes := n }, true)
+  | none => ({ w with out := w.out ++ p, writes := n }, true)
 
 structure Ctx where
   vars : List (Bytes × VarVal) := []
@@ -288,8 +291,8 @@ def fail (st : St) (e : Err) : Res := ⟨st, some e⟩
 
 def St.write (s : St) (p : Bytes) : Res :=
   match s.w.write p with
-  | .ok w => ok { s with w := w }
-  | .error e => fail s e
+  | (w, true) => ok { s with w := w }
+  | (w, false) => fail { s with w := w } .writer
 
 /-- Text written for static text or a printed value inside an escape region
     (`writeNode typeRaw` and, after the repair, the print node too): jsonquote wins over
@@ -382,6 +385,135 @@ structure LoopRes where
   st : St
   abort : Bool
   deriving Inhabited
+
+/-- Body and optional else-branch of a loop node (`child[0]` true-wrapper, `child[1]` false-wrapper;
+    without an else the children are the body itself). -/
+def loopParts (child : List Node) : List Node × Option (List Node) :=
+  let body := match child with
+    | .condTrue b :: _ => b
+    | b => b
+  let els := match child with
+    | _ :: .condFalse e :: _ => some e
+    | _ => none
+  (body, els)
+
+/-- The `for { … }` of `Ctx.cloop`, with the body given as a function. `abort` = the function
+    returned early with `ctx.Err` set. The loop variable references the counter cell, so on every
+    exit it reads the current value. -/
+def cloopLoop (run : St → Res) (ls : CLoopSpec) : Nat → Int → Int → Nat → St → LoopRes
+  | 0, _, _, n, s => ⟨n, { s with c := { s.c with err := some .outOfFuel } }, true⟩
+  | f+1, v, lim, n, s =>
+    let exit := fun (s : St) (v : Int) => ({ s with c := s.c.setStatic ls.cnt (.int v) } : St)
+    match loopAllows ls.condOp v lim with
+    | none => ⟨n, exit { s with c := { s.c with err := some .wrongLoopCond } } v, false⟩
+    | some false => ⟨n, exit s v, false⟩
+    | some true =>
+      let s1 : St := { s with c := s.c.setStatic ls.cnt (.int v) }
+      -- separator
+      let rs := if n > 0 && !ls.sep.isEmpty then s1.write ls.sep else ok s1
+      match rs.err with
+      | some e => ⟨n, { rs.st with c := { rs.st.c with err := some e } }, true⟩
+      | none =>
+        let qb := rs.st.c.chQB
+        let rb := run { rs.st with c := { rs.st.c with chQB := true } }
+        let sb : St := { rb.st with c := { rb.st.c with chQB := qb } }
+        let abortErr : Option Err := match rb.err with
+          | some e => if isSentinel e then none else some e
+          | none => none
+        match abortErr with
+        | some e => ⟨n+1, { sb with c := { sb.c with err := some e } }, true⟩
+        | none =>
+          match ls.cntOp with
+          | .inc | .dec =>
+            let v' := if ls.cntOp == .inc then v + 1 else v - 1
+            let sv : St := { sb with c := sb.c.setStatic ls.cnt (.int v') }
+            -- break / lazybreak (or a child loop) left the number of loops to end: this is one of them
+            if sb.c.brkD > 0 then ⟨n+1, { sv with c := { sv.c with brkD := sb.c.brkD - 1 } }, false⟩
+            else cloopLoop run ls f v' lim (n+1) sv
+          | _ => ⟨n+1, { sb with c := { sb.c with err := some .wrongLoopOp } }, true⟩
+
+/-- `Ctx.cloop`: bounds, the loop, the else-branch. Errors are reported through `ctx.Err`. -/
+def cloopWith (run : St → Res) (runElse : Option (St → Res)) (fuel : Nat) (ls : CLoopSpec) (s : St) : Res :=
+  let (cnt, c1) := cloopRange s.c ls.cntStatic ls.cntInit
+  match cnt with
+  | .error _ => ok { s with c := c1 }
+  | .ok cnt =>
+    let (lim, c2) := cloopRange c1 ls.limStatic ls.lim
+    match lim with
+    | .error _ => ok { s with c := c2 }
+    | .ok lim =>
+      let r := cloopLoop run ls fuel cnt lim 0 { s with c := c2 }
+      if r.abort then ok r.st else
+      if r.n == 0 then
+        match runElse with
+        | some re =>
+          -- for-else: an error of a child goes to ctx.Err
+          let x := re r.st
+          (match x.err with
+           | some e => ok { x.st with c := { x.st.c with err := some e } }
+           | none => ok x.st)
+        | none => ok r.st
+      else ok r.st
+
+/-- `RangeLoop.Iterate` driven by `Inspector.Loop` over the elements. -/
+def rloopLoop (run : St → Res) (ls : RLoopSpec) : List (Bytes × Val × InsKind) → Nat → St → LoopRes
+  | [], n, s => ⟨n, s, false⟩
+  | (k, v, ik) :: rest, n, s =>
+    -- SetKey (if required) and SetVal
+    let c1 := if ls.key.isEmpty then s.c else s.c.set ls.key (.bytes k) .static
+    let s1 : St := { s with c := c1.set ls.val v ik }
+    let rs := if n > 0 && !ls.sep.isEmpty then s1.write ls.sep else ok s1
+    match rs.err with
+    | some e => ⟨n+1, { rs.st with c := { rs.st.c with err := some e } }, true⟩
+    | none =>
+      let rb := run rs.st
+      let sb : St := rb.st
+      let abortErr : Option Err := match rb.err with
+        | some e => if isSentinel e then none else some e
+        | none => none
+      match abortErr with
+      | some e => ⟨n+1, { sb with c := { sb.c with err := some e } }, true⟩
+      | none =>
+        if sb.c.brkD > 0 then ⟨n+1, { sb with c := { sb.c with brkD := sb.c.brkD - 1 } }, false⟩
+        else rloopLoop run ls rest (n+1) sb
+
+/-- `Ctx.rloop`. -/
+def rloopWith (run : St → Res) (runElse : Option (St → Res)) (ls : RLoopSpec) (s : St) : Res :=
+  match splitDots ls.src with
+  | [] => ok s
+  | name :: sub =>
+    match getVar s.c.vars name with
+    | none => ok s
+    | some vv =>
+      let items : List (Bytes × Val × InsKind) := match vv with
+        | .ins v k => insLoop k v sub
+        | _ => []
+      let r := rloopLoop run ls items 0 s
+      -- `ctx.Err = v.ins.Loop(...)`: the inspector's result (nil) replaces whatever was there;
+      -- an error caught inside an iteration (rl.err) is put back and the function returns
+      if r.abort then ok r.st else
+      let s2 : St := { r.st with c := { r.st.c with err := none } }
+      if r.n == 0 then
+        match runElse with
+        | some re =>
+          let x := re s2
+          (match x.err with
+           | some e => ok { x.st with c := { x.st.c with err := some e } }
+           | none => ok x.st)
+        | none => ok s2
+      else ok s2
+
+/-- `writeNode typeLoopCount / typeLoopRange`: the break depth pending for the parent loops survives
+    the loop; `ctx.Err` is turned into the returned error. -/
+def loopNode (loop : St → Res) (s : St) : Res :=
+  let saved := s.c.brkD
+  let r := loop { s with c := { s.c with brkD := 0 } }
+  let r : Res := { r with st := { r.st with c := { r.st.c with brkD := max saved r.st.c.brkD } } }
+  match r.err with
+  | some _ => r
+  | none => match r.st.c.err with
+    | some e => fail r.st e
+    | none => r
 
 mutual
 
@@ -502,26 +634,11 @@ def writeNode (reg : Registry) : Nat → Node → St → Res
     | .case_ _ child => writeSeq reg f child s
     | .default_ child => writeSeq reg f child s
     | .cloop ls child =>
-      -- pending break depth of the enclosing loops is kept across this loop (repair)
-      let saved := s.c.brkD
-      let r := cloop reg f ls child { s with c := { s.c with brkD := 0 } }
-      let left := r.st.c.brkD
-      let r := { r with st := { r.st with c := { r.st.c with brkD := max saved left } } }
-      match r.err with
-      | some _ => r
-      | none => match r.st.c.err with
-        | some e => fail r.st e
-        | none => r
+      let (body, els) := loopParts child
+      loopNode (cloopWith (fun st => writeSeq reg f body st) (els.map (fun e st => writeSeq reg f e st)) f ls) s
     | .rloop ls child =>
-      let saved := s.c.brkD
-      let r := rloop reg f ls child { s with c := { s.c with brkD := 0 } }
-      let left := r.st.c.brkD
-      let r := { r with st := { r.st with c := { r.st.c with brkD := max saved left } } }
-      match r.err with
-      | some _ => r
-      | none => match r.st.c.err with
-        | some e => fail r.st e
-        | none => r
+      let (body, els) := loopParts child
+      loopNode (rloopWith (fun st => writeSeq reg f body st) (els.map (fun e st => writeSeq reg f e st)) ls) s
     | .brk d => fail { s with c := { s.c with brkD := max s.c.brkD (max d 1) } } .breakLoop
     | .lbrk d => ok { s with c := { s.c with brkD := max s.c.brkD (max d 1) } }
     | .cont => fail s .contLoop
@@ -590,125 +707,6 @@ def switchNode (reg : Registry) : Nat → Bytes → List Node → List Node → 
             | some e => fail s1 e
             | none => if r then writeNode reg f ch s1 else switchNode reg f arg all rest s1
       | _ => switchNode reg f arg all rest s
-
-/-- `Ctx.cloop`. Errors are reported through `ctx.Err` (the caller checks it). -/
-def cloop (reg : Registry) : Nat → CLoopSpec → List Node → St → Res
-  | 0, _, _, s => fail s .outOfFuel
-  | f+1, ls, child, s =>
-    let (cnt, c1) := cloopRange s.c ls.cntStatic ls.cntInit
-    match cnt with
-    | .error _ => ok { s with c := c1 }
-    | .ok cnt =>
-      let (lim, c2) := cloopRange c1 ls.limStatic ls.lim
-      match lim with
-      | .error _ => ok { s with c := c2 }
-      | .ok lim =>
-        let body := match child with
-          | .condTrue b :: _ => b
-          | b => b
-        let r := cloopIter reg f ls body cnt lim 0 { s with c := c2 }
-        if r.abort then ok r.st else
-        if r.n == 0 then
-          match child with
-          | _ :: .condFalse e :: _ =>
-            -- for-else: an error of a child goes to ctx.Err
-            let re := writeSeq reg f e r.st
-            (match re.err with
-             | some x => ok { re.st with c := { re.st.c with err := some x } }
-             | none => ok re.st)
-          | _ => ok r.st
-        else ok r.st
-
-/-- The `for { … }` of `cloop`. `abort` = the function returned early with `ctx.Err` set. -/
-def cloopIter (reg : Registry) : Nat → CLoopSpec → List Node → Int → Int → Nat → St → LoopRes
-  | 0, _, _, _, _, n, s => ⟨n, { s with c := { s.c with err := some .outOfFuel } }, true⟩
-  | f+1, ls, body, v, lim, n, s =>
-    -- the loop variable references the counter cell: on exit it reads the current value
-    let exit := fun (s : St) (v : Int) => ({ s with c := s.c.setStatic ls.cnt (.int v) } : St)
-    match loopAllows ls.condOp v lim with
-    | none => ⟨n, exit { s with c := { s.c with err := some .wrongLoopCond } } v, false⟩
-    | some false => ⟨n, exit s v, false⟩
-    | some true =>
-      let c1 := s.c.setStatic ls.cnt (.int v)
-      let s1 := { s with c := c1 }
-      -- separator
-      let rs := if n > 0 && !ls.sep.isEmpty then s1.write ls.sep else ok s1
-      match rs.err with
-      | some e => ⟨n, { rs.st with c := { rs.st.c with err := some e } }, true⟩
-      | none =>
-        let qb := rs.st.c.chQB
-        let rb := writeSeq reg f body { rs.st with c := { rs.st.c with chQB := true } }
-        let sb : St := { rb.st with c := { rb.st.c with chQB := qb } }
-        let abortErr : Option Err := match rb.err with
-          | some e => if isSentinel e then none else some e
-          | none => none
-        match abortErr with
-        | some e => ⟨n+1, { sb with c := { sb.c with err := some e } }, true⟩
-        | none =>
-          match ls.cntOp with
-          | .inc | .dec =>
-            let v' := if ls.cntOp == .inc then v + 1 else v - 1
-            let sv : St := { sb with c := sb.c.setStatic ls.cnt (.int v') }
-            if sb.c.brkD > 0 then ⟨n+1, { sv with c := { sv.c with brkD := sb.c.brkD - 1 } }, false⟩
-            else cloopIter reg f ls body v' lim (n+1) sv
-          | _ =>
-            -- wrong step operation: ctx.Err is set, the loop goes on with the same value until the
-            -- body or the bound stops it; the model's class has only ++ / --
-            ⟨n+1, { sb with c := { sb.c with err := some .wrongLoopOp } }, true⟩
-
-/-- `Ctx.rloop` + `RangeLoop.Iterate` driven by `Inspector.Loop`. -/
-def rloop (reg : Registry) : Nat → RLoopSpec → List Node → St → Res
-  | 0, _, _, s => fail s .outOfFuel
-  | f+1, ls, child, s =>
-    match splitDots ls.src with
-    | [] => ok s
-    | name :: sub =>
-      match getVar s.c.vars name with
-      | none => ok s
-      | some vv =>
-        let items : List (Bytes × Val × InsKind) := match vv with
-          | .ins v k => insLoop k v sub
-          | _ => []
-        let body := match child with
-          | .condTrue b :: _ => b
-          | b => b
-        let r := rloopIter reg f ls body items 0 s
-        -- `ctx.Err = v.ins.Loop(...)`: the inspector's result (nil) replaces whatever was there;
-        -- an error caught inside an iteration (rl.err) is put back and the function returns
-        if r.abort then ok r.st else
-        let s2 := { r.st with c := { r.st.c with err := none } }
-        if r.n == 0 then
-          match child with
-          | _ :: .condFalse e :: _ =>
-            let re := writeSeq reg f e s2
-            (match re.err with
-             | some x => ok { re.st with c := { re.st.c with err := some x } }
-             | none => ok re.st)
-          | _ => ok s2
-        else ok s2
-
-def rloopIter (reg : Registry) : Nat → RLoopSpec → List Node → List (Bytes × Val × InsKind) → Nat → St → LoopRes
-  | 0, _, _, _, n, s => ⟨n, { s with c := { s.c with err := some .outOfFuel } }, true⟩
-  | _+1, _, _, [], n, s => ⟨n, s, false⟩
-  | f+1, ls, body, (k, v, ik) :: rest, n, s =>
-    -- SetKey (if required) and SetVal
-    let c1 := if ls.key.isEmpty then s.c else s.c.set ls.key (.bytes k) .static
-    let c2 := c1.set ls.val v ik
-    let s1 := { s with c := c2 }
-    let rs := if n > 0 && !ls.sep.isEmpty then s1.write ls.sep else ok s1
-    match rs.err with
-    | some e => ⟨n+1, { rs.st with c := { rs.st.c with err := some e } }, true⟩
-    | none =>
-      let rb := writeSeq reg f body rs.st
-      let sb : St := rb.st
-      let abortErr : Option Err := match rb.err with
-        | some e => if isSentinel e then none else some e
-        | none => none
-      match abortErr with
-      | some e => ⟨n+1, { sb with c := { sb.c with err := some e } }, true⟩
-      | none =>
-        if sb.c.brkD > 0 then ⟨n+1, { sb with c := { sb.c with brkD := sb.c.brkD - 1 } }, false⟩
-        else rloopIter reg f ls body rest (n+1) sb
 
 end
 
